@@ -308,3 +308,105 @@ pub proof fn lemma_blocks_out_prefix(s: Seq<u8>, check: u8, recs: Seq<RecS>, out
         }
     }
 }
+
+// ---- encoder side -----------------------------------------------------------------------------------------
+/// 1.2 encoding of a multibyte integer
+pub open spec fn enc_mb(v: nat) -> Seq<u8>
+    decreases v
+{
+    if v < 128 { seq![v as u8] } else { seq![(128 + v % 128) as u8] + enc_mb(v / 128) }
+}
+
+pub proof fn lemma_enc_mb_len(v: nat, k: nat)
+    requires v < pow2(7 * k), 1 <= k,
+    ensures 1 <= enc_mb(v).len() <= k,
+    decreases v
+{
+    lemma_pow2(7 * k); lemma_pow2(7);
+    if v >= 128 {
+        if k == 1 { assert(pow2(7) == 128) by { lemma_pow2(0); lemma_pow2(1); lemma_pow2(2); lemma_pow2(3); lemma_pow2(4); lemma_pow2(5); lemma_pow2(6); } }
+        lemma_pow2_add(7, (7 * (k - 1)) as nat);
+        assert(pow2(7) == 128) by { lemma_pow2(0); lemma_pow2(1); lemma_pow2(2); lemma_pow2(3); lemma_pow2(4); lemma_pow2(5); lemma_pow2(6); }
+        assert(v / 128 < pow2((7 * (k - 1)) as nat)) by (nonlinear_arith) requires v < 128 * pow2((7 * (k - 1)) as nat);
+        lemma_enc_mb_len(v / 128, (k - 1) as nat);
+    }
+}
+
+pub proof fn lemma_pow2_add(a: nat, b: nat)
+    ensures pow2(a + b) == pow2(a) * pow2(b),
+    decreases a
+{
+    lemma_pow2(0);
+    if a > 0 {
+        lemma_pow2_add((a - 1) as nat, b);
+        lemma_pow2((a - 1) as nat);
+        lemma_pow2((a - 1 + b) as nat);
+        assert(pow2(a + b) == 2 * pow2((a - 1 + b) as nat));
+        assert(2 * (pow2((a - 1) as nat) * pow2(b)) == (2 * pow2((a - 1) as nat)) * pow2(b)) by (nonlinear_arith);
+    } else {
+        assert(pow2(0) * pow2(b) == pow2(b)) by (nonlinear_arith) requires pow2(0) == 1;
+    }
+}
+
+/// decoding what the encoder wrote gives the value back (any continuation `rest`)
+pub proof fn lemma_mb_roundtrip(pre: Seq<u8>, v: nat, rest: Seq<u8>, acc: nat)
+    requires pre.len() + enc_mb(v).len() <= 9,
+    ensures sp_multibyte(pre + enc_mb(v) + rest, pre.len(), acc) == Some((acc + v * pow2(7 * pre.len()), pre.len() + enc_mb(v).len())),
+    decreases v
+{
+    let i = pre.len();
+    let s = pre + enc_mb(v) + rest;
+    if v < 128 {
+        assert(s[i as int] == v as u8);
+        assert(((v as u8) % 128) as nat == v);
+    } else {
+        let b = (128 + v % 128) as u8;
+        assert(s[i as int] == b);
+        assert((b % 128) as nat == v % 128);
+        let pre2 = pre.push(b);
+        assert(pre2 + enc_mb(v / 128) + rest =~= s);
+        lemma_mb_roundtrip(pre2, v / 128, rest, acc + (v % 128) * pow2(7 * i));
+        lemma_pow2_add(7, 7 * i);
+        assert(pow2(7) == 128) by { lemma_pow2(0); lemma_pow2(1); lemma_pow2(2); lemma_pow2(3); lemma_pow2(4); lemma_pow2(5); lemma_pow2(6); }
+        assert(acc + (v % 128) * pow2(7 * i) + (v / 128) * pow2(7 * (i + 1)) == acc + v * pow2(7 * i)) by (nonlinear_arith)
+            requires pow2(7 * (i + 1)) == 128 * pow2(7 * i), v == 128 * (v / 128) + v % 128;
+    }
+}
+
+pub open spec fn zeros(n: nat) -> Seq<u8> { Seq::new(n, |i: int| 0u8) }
+
+/// what xz_compress emits, as a function of the LZMA2 payload `e` and the input length
+pub open spec fn enc_xz_header(check: u8) -> Seq<u8> { xz_magic() + seq![0u8, check] + enc_le32(crc32_of(seq![0u8, check])) }
+pub open spec fn enc_xz_bhdr() -> Seq<u8> { seq![2u8, 0u8, 0x21u8, 1u8, 22u8, 0u8, 0u8, 0u8] }
+pub open spec fn enc_xz_block(e: Seq<u8>) -> Seq<u8> {
+    enc_xz_bhdr() + enc_le32(crc32_of(enc_xz_bhdr())) + e + zeros(sp_pad4(12 + e.len()))
+}
+pub open spec fn enc_xz_index_body(unpadded: nat, unpacked: nat) -> Seq<u8> {
+    seq![0u8] + enc_mb(1) + enc_mb(unpadded) + enc_mb(unpacked)
+}
+pub open spec fn enc_xz_index(unpadded: nat, unpacked: nat) -> Seq<u8> {
+    let b = enc_xz_index_body(unpadded, unpacked);
+    let bp = b + zeros(sp_pad4(b.len()));
+    bp + enc_le32(crc32_of(bp))
+}
+pub open spec fn enc_xz_footer_body(check: u8, index_size: nat) -> Seq<u8> {
+    enc_le32((index_size / 4 - 1) as u32) + seq![0u8, check]
+}
+pub open spec fn enc_xz_footer(check: u8, index_size: nat) -> Seq<u8> {
+    enc_le32(crc32_of(enc_xz_footer_body(check, index_size))) + enc_xz_footer_body(check, index_size) + xz_footer_magic()
+}
+pub open spec fn enc_xz_file(e: Seq<u8>, unpacked: nat) -> Seq<u8> {
+    enc_xz_header(0) + enc_xz_block(e) + enc_xz_index(12 + e.len(), unpacked)
+        + enc_xz_footer(0, enc_xz_index(12 + e.len(), unpacked).len())
+}
+
+pub proof fn lemma_pow2_7() ensures pow2(7) == 128 {
+    lemma_pow2(0); lemma_pow2(1); lemma_pow2(2); lemma_pow2(3); lemma_pow2(4); lemma_pow2(5); lemma_pow2(6);
+}
+pub proof fn lemma_u64_lt_pow2_70(v: u64) ensures v < pow2(70), 1 < pow2(7) {
+    lemma_shl64(63);
+    assert((1u64 << 63) == 0x8000_0000_0000_0000u64) by (bit_vector);
+    lemma_pow2_7();
+    lemma_pow2_add(63, 7);
+    assert(pow2(63) * pow2(7) > 0xFFFF_FFFF_FFFF_FFFF) by (nonlinear_arith) requires pow2(63) == 0x8000_0000_0000_0000, pow2(7) == 128;
+}
